@@ -288,28 +288,64 @@ func ruleCHECKSUMCOVERAGE(p *Program, rep *Report) {
 	type rng struct{ lo, hi int64 }
 	var ranges []rng
 	undecided := ""
-	for _, b := range compute.Blocks {
-		for _, ins := range b.Instrs {
-			c, ok := ins.(ssa.CallInstruction)
-			if !ok {
-				continue
+	reach := staticReach(p, compute)
+	// a []byte handed to the hash: a constant-bounded slice of a byte array, or a parameter that every call
+	// site inside the checksum computation feeds with one
+	var resolve func(v ssa.Value, depth int) ([]rng, bool)
+	resolve = func(v ssa.Value, depth int) ([]rng, bool) {
+		if lo, hi, ok := constByteRange(v); ok {
+			return []rng{{lo, hi}}, true
+		}
+		if par, ok := v.(*ssa.Parameter); ok && depth < 3 {
+			pi := paramIndex(par.Parent(), par)
+			var out []rng
+			n := 0
+			for _, site := range p.callIndex().sites[par.Parent()] {
+				if !reach[site.Parent()] {
+					continue
+				}
+				n++
+				if pi < 0 || pi >= len(site.Common().Args) {
+					return nil, false
+				}
+				r, ok := resolve(site.Common().Args[pi], depth+1)
+				if !ok {
+					return nil, false
+				}
+				out = append(out, r...)
 			}
-			name := ""
-			if c.Common().IsInvoke() {
-				name = c.Common().Method.Name()
-			} else if cal := c.Common().StaticCallee(); cal != nil && cal.Signature.Recv() != nil {
-				name = cal.Name()
+			return out, n > 0
+		}
+		return nil, false
+	}
+	for _, f := range sortedFns(reach) {
+		if fnPkgPath(f) != modPath {
+			continue
+		}
+		for _, b := range f.Blocks {
+			for _, ins := range b.Instrs {
+				c, ok := ins.(ssa.CallInstruction)
+				if !ok {
+					continue
+				}
+				name := ""
+				if c.Common().IsInvoke() {
+					name = c.Common().Method.Name()
+				} else if cal := c.Common().StaticCallee(); cal != nil && cal.Signature.Recv() != nil {
+					name = cal.Name()
+				}
+				if name != "Write" || len(c.Common().Args) == 0 {
+					continue
+				}
+				rep.Analysed(funcName(f))
+				arg := c.Common().Args[len(c.Common().Args)-1]
+				rs, ok := resolve(arg, 0)
+				if !ok {
+					undecided = "the bytes handed to the hash at " + p.InstrPos(ins) + " are not a constant-bounded slice of a byte array"
+					continue
+				}
+				ranges = append(ranges, rs...)
 			}
-			if name != "Write" || len(c.Common().Args) == 0 {
-				continue
-			}
-			arg := c.Common().Args[len(c.Common().Args)-1]
-			lo, hi, ok := constByteRange(arg)
-			if !ok {
-				undecided = "the bytes handed to the hash at " + p.InstrPos(ins) + " are not a constant-bounded slice of a byte array"
-				continue
-			}
-			ranges = append(ranges, rng{lo, hi})
 		}
 	}
 	cpos := p.Pos(compute.Pos())
